@@ -36,6 +36,8 @@ def scenarios(tier, pid):
        "--prev", "10:infoR,12:plain", "--preempt", 3 if tier == "thorough" else 2)
     sc("delivery_thread_vs_two_first_regs_b", ("C04",), "--threads", "R12:2;R10:1;W10",
        "--prev", "10:plain,12:info", "--preempt", 3 if tier == "thorough" else 2)
+    sc("prev_after_all_actions_removed", ("C04", "C02"), "--threads",
+       "R10:1,R12:2,U1,D10,D12,S12,D12,D10,R10:3,D10", "--prev", "10:plain,12:info")
     sc("panicking_destructor_then_more_calls", ("C18",), "--threads", "U90,R10:2,U2;R12:3",
        "--pre", "R10:90", "--preempt", 1)
     sc("prev_ignored_default", ("C04",), "--threads", "R10:1;R12:2", "--prev", "10:ign",
@@ -62,6 +64,12 @@ def scenarios(tier, pid):
            "--nested", 1, "--preempt", 2)
         sc("first_regs_two_signals_prev_p3", ("C04", "C18"), "--threads", "R10:1;R12:2",
            "--prev", "10:info,12:plain", "--nested", 2, "--signals", "10,12", "--preempt", 2)
+    # generated programs (lib/genprog.py): the monitor is program-independent
+    import genprog
+    for seed in range(120 if tier == "thorough" else 8):
+        name, args = genprog.registry_program(seed)
+        if pid in ("C01", "C02", "C03", "C05", "C18") or (pid == "C04" and "--prev" in args):
+            S.append((name, args))
     return S
 
 
